@@ -8,15 +8,30 @@
    strictly inside the range (the first and last year are clamped by the code):
    to_local_time_type tz t is exactly the specification's offset (C18_lookup_partial), together with its ingredients: the
    table scan, the three kinds of rule dates, the local timestamp of a switch-over.
+   Byte level (TzCodec.v): C18_decode_partial - the reader applied to the RFC 8536 layout of a version 2 / 3 file (an empty
+   version-1 block, the second header with its counts, 64-bit big-endian transition times, one-byte type indices, six-byte
+   local time type records, designation characters, then the footer) yields exactly the transitions and types that were
+   laid out, with the footer handed to the POSIX TZ string parser; i.e. header and block arithmetic and the big-endian
+   integer decoding are proved.
    NOT PROVED here (checked by the differential run against TzSpec on synthesized files and against CPython's zoneinfo on
-   real files): the byte-level decoding, i.e. that from_tzif of an encoded file yields the structure the file describes
-   (header and data-block arithmetic, big-endian integers, the POSIX TZ string grammar).  Named *_partial for that reason. *)
-From Astro Require Import Base Text CalSpec DateModel TimeModel ApiModel InstantSpec TzModel TzSpec DateProofs TzProofs.
+   real files): the POSIX TZ string grammar of the footer (that from_tz_string of a printed rule yields that rule), version-1
+   files (32-bit block), non-empty leap-second / indicator sections.  Named *_partial for that reason. *)
+From Astro Require Import Base Text CalSpec DateModel TimeModel ApiModel InstantSpec TzModel TzSpec DateProofs TzProofs TzCodec.
 
 Theorem C18_lookup_partial : forall tz t, tz_wf tz -> sorted_trans (tz_trans tz) -> ts_in_range t ->
   MIN_Y + 1 <= utc_year year_of t <= MAX_Y - 1 ->
   exists u, spec_lookup year_of (spec_file tz) t = Some u /\ to_local_time_type tz t = TzOk u.
 Proof. exact lookup_is_spec. Qed.
+
+Theorem C18_decode_partial : forall v trans types chars footer, v <> V1 ->
+  Forall (fun tr => in_i64 (fst tr)) trans -> Forall in_i32 types ->
+  u32ok (Z.of_nat (length trans)) -> u32ok (Z.of_nat (length types)) -> u32ok (Z.of_nat (length chars)) ->
+  from_tzif (enc_file v trans types chars footer) =
+  (let! rule := from_tz_string footer (match v with V3 => true | _ => false end) in
+   if existsb (fun tr => Z.of_nat (length types) <=? snd tr) trans
+      || ((match types with [] => true | _ => false end) && (match rule with None => true | _ => false end))
+   then TzErr else TzOk (mkTz trans types rule)).
+Proof. exact from_tzif_encoded. Qed.
 
 Theorem C18_scan : forall l t, sorted_trans l -> scan_rev (rev l) t = latest_type l t 0.
 Proof. exact scan_is_latest. Qed.
@@ -56,6 +71,7 @@ Example C18_lookup_example :
 Proof. cbv zeta. repeat split; vm_compute; reflexivity. Qed.
 
 Print Assumptions C18_lookup_partial.
+Print Assumptions C18_decode_partial.
 Print Assumptions C18_scan.
 Print Assumptions C18_rule_date_J.
 Print Assumptions C18_rule_date_N.
